@@ -442,6 +442,7 @@ func registerIntrinsics(e *Engine) {
 	registerSwagConvertBool(e)
 	registerAtomicModels(e)
 	registerFormatBool(e)
+	registerReflectTypeOf(e)
 }
 
 // ---------------------------------------------------------------------------
